@@ -140,6 +140,9 @@ type Op struct {
 	// Arg: lines/next call the iterator with this handle as its argument (it must be ignored:
 	// the iterator is a closure over its own file); nil = called without arguments
 	Arg *int `json:"arg,omitempty"`
+	// NilArg: optional arguments that have their default value are passed as explicit nils:
+	// io.open(p, nil) for mode "r", f:seek(nil, n) for "cur", f:seek(w, nil) for 0, io.lines(nil)
+	NilArg bool `json:"nilarg,omitempty"`
 	// Which: stdclose closes "stdout" or "stderr" (refused)
 	Which string `json:"which,omitempty"`
 }
